@@ -46,6 +46,7 @@ FReply(r, kind) ==
 Unsolicited == {Msg("err", NoRun, "server"), Msg("err", NoRun, "none"), Msg("err", NoRun, "step"),
                 Msg("bad", NoRun, "")}
                \cup {Msg("sig", r, "") : r \in Runs}
+               \cup {Msg("err", r, "none") : r \in Runs}     \* a non-fatal error about a run: pending, finished or never started
                \cup {Msg("wd", r, "dup") : r \in Runs}       \* a result nobody asked for (again)
 
 FUnsolicited(m) ==
